@@ -86,7 +86,9 @@ func (u *uploader) findWork() work {
 
 	fis, err = os.ReadDir(uploaddir)
 	if err != nil {
-		os.MkdirAll(uploaddir, 0777)
+		if mode != "off" {
+			os.MkdirAll(uploaddir, 0777)
+		}
 		return ans
 	}
 	// There should be only one of these per day; maybe sometime
